@@ -573,7 +573,7 @@ def _b1(ctx: Context, prof: PartialProfile) -> None:
             f"{f.qualname.rsplit('.', 2)[-2]}.{f.name}: lets {bad} escape; callers only ignore ValueError",
             f.loc(),
         )
-    ck.require_min("C19.B1", "index/key sites in the parsers", nidx, 4)
+    ck.require_min("C19.B1", "index/key sites in the parsers", nidx, 2)
     # callers catch ValueError around the parse and return
     for caller in (f"{BC}._device_detected", f"{ZC}._async_handle_loaded_service_info"):
         f = ctx.func(caller)
@@ -727,7 +727,7 @@ def _k1(ctx: Context) -> None:
         return p
 
     rows = [
-        ("status_flags", wrapped("StatusFlags", lambda t: t == ("sub", data, ("const", 2))), "StatusFlags(data[2])"),
+        ("status_flags", wrapped("StatusFlags", field(2, 1)), "StatusFlags(data[2])"),
         ("category", wrapped("Categories", field(9, 2)), "Categories(little-endian u16 at data[9:11])"),
         ("state_num", field(11, 2), "little-endian u16 at data[11:13]"),
         ("config_num", field(13, 1), "data[13]"),
@@ -742,6 +742,9 @@ def _k1(ctx: Context) -> None:
         and contains(idt, lambda s: s == ("call", ("attr", sl(3, 9), "hex"), (), ()))
         and contains(idt, lambda s: s == ("const", ":"))
     ) or idt == ("call", ("attr", sl(3, 9), "hex"), (("const", ":"),), ())  # bytes.hex(":") is lower-case and colon-separated already
+    if not ok_id and idt[0] == "call" and idt[1][0] == "attr" and idt[1][2] == "hex" and idt[2] == (("const", ":"),) and not idt[3]:
+        bf = byte_field(idt[1][1])  # the six id bytes taken as one `6s` field of a struct unpack
+        ok_id = bf is not None and bf[0] == data and bf[1] == 3 and bf[2] == 6 and bf[3] == "bytes"
     ck.check("C19.K1", ok_id, "BLE: id = lower-case colon-separated hex of data[3:9]", f"{ctx.fkey(f)}:field:id",
              f"HomeKitAdvertisement: id is {show(idt, 160)}", ctx.loc(f, rn))
     sh = kw.get("setup_hash", ("unknown", ""))
